@@ -263,6 +263,7 @@ class RealRun:
         self.opened: List[Dict[str, int]] = []
         self.op_index = -1
         self.results: List[str] = []
+        self.log: List[Tuple[List[Any], str]] = []
 
     # -- plumbing ------------------------------------------------------------------------------------------
 
@@ -450,6 +451,7 @@ class RealRun:
             self.dead = 'spin'
             r = 'fatal spin'
         self.results.append(r)
+        self.log.append((op, r))
         return r
 
     async def _do(self, op: List[Any]) -> str:
@@ -556,6 +558,27 @@ class RealRun:
             return self._result(side, i, text)
         raise ValueError(op)
 
+    async def drain(self, out: List[str]) -> bool:
+        """everybody reads, every message in flight is delivered, until nothing moves (bounded)"""
+        for s in self.csess + self.ssess:
+            s.pause_after = None
+        if self.holding:
+            out.append(await self.do(['burst', 0]))
+        for i in range(len(self.cfgs)):
+            for side in 'ab':
+                if self.dead:
+                    return False
+                out.append(await self.do(['app', side, i, 'resume']))
+        for _ in range(20000):
+            if self.dead:
+                return False
+            ra = await self.do(['deliver', 'a'])
+            rb = 'dead' if self.dead else await self.do(['deliver', 'b'])
+            out += [ra, rb]
+            if ra == 'empty' and rb == 'empty':
+                return True
+        return False
+
     async def finish(self) -> None:
         try:
             self.hub.auto = True
@@ -566,9 +589,9 @@ class RealRun:
             pass
 
 
-async def _run_case(case: Dict[str, Any], stop_at: Optional[int] = None) -> Dict[str, Any]:
+async def _run_case(case: Dict[str, Any], stop_at: Optional[int] = None, drain: bool = False) -> Dict[str, Any]:
     run = RealRun(case)
-    res: Dict[str, Any] = {'results': [], 'error': None, 'run': run}
+    res: Dict[str, Any] = {'results': [], 'error': None, 'run': run, 'drained': False, 'drain_results': []}
     with capture.PacketTap() as tap:
         run.tap = tap
         run._install_budget()
@@ -582,6 +605,8 @@ async def _run_case(case: Dict[str, Any], stop_at: Optional[int] = None) -> Dict
                 res['results'].append(r)
                 if run.dead:
                     break
+            if drain and not run.dead:
+                res['drained'] = await run.drain(res['drain_results'])
         except Budget:
             res['error'] = 'spin during setup'
         except Exception as e:      # reported by the caller
@@ -590,13 +615,16 @@ async def _run_case(case: Dict[str, Any], stop_at: Optional[int] = None) -> Dict
             run._remove_budget()
             await run.finish()
     res['wire'] = run.wire
+    res['dead'] = run.dead
+    res['log'] = run.log
+    res['events'] = {'a': [list(s.ev) for s in run.csess], 'b': [list(s.ev) for s in run.ssess]}
     return res
 
 
-def run_case(case: Dict[str, Any]) -> Dict[str, Any]:
+def run_case(case: Dict[str, Any], drain: bool = False) -> Dict[str, Any]:
     """Run a case on the real code (fresh loop)."""
     try:
-        return pair.run(_run_case(case), timeout=60)
+        return pair.run(_run_case(case, drain=drain), timeout=60)
     except Budget:
         return {'results': [], 'error': 'spin', 'wire': {'a': [], 'b': []}}
     except asyncio.TimeoutError:
@@ -726,7 +754,7 @@ def gen_case(rng: random.Random, profile: str = 'stream') -> Dict[str, Any]:
     for i in range(nchan):
         ops.append(['app', 'a', i, 'resume'])
         ops.append(['app', 'b', i, 'resume'])
-    for _ in range(rng.choice([0, 1, 1, 1]) * 400):
+    for _ in range(rng.choice([0, 1, 1, 1]) * 30):
         ops.append(['deliver', 'a'])
         ops.append(['deliver', 'b'])
     return case
